@@ -55,15 +55,24 @@ def behaviours(cfg, num, depth):
         if not prog:
             continue
         script = []
+        defs = set()
         for a, arg in acts:
             if a == "Refresh":
                 script.append("R")
             elif a in ("StepFork", "NodeUpdate"):
                 if not script or script[-1] != "S":
                     script.append("S")
-            elif a in ("JobStart", "JobWrite"):
+            elif a in ("JobStart", "JobWrite", "JobDefs"):
                 n, fk, k, c = parse_md(arg)
                 key = "%s/%s/%d" % (conf["inst"](n, fk), "main" if k == "chunk" else k, c)
-                script.append(("B:" if a == "JobStart" else "E:") + key)
+                # (runs of these scripts have early_defs set: the first end step of a split job
+                # publishes its chunk definitions, the second finishes it)
+                if a == "JobDefs":
+                    defs.add(key)
+                    script.append("E:" + key)
+                elif a == "JobWrite" and k == "split" and key not in defs:
+                    script += ["E:" + key, "E:" + key]
+                else:
+                    script.append(("B:" if a == "JobStart" else "E:") + key)
         out.append((prog, script))
     return out, r
